@@ -182,7 +182,16 @@ def check_graph(n, edges, order, acc, tier):
         bad('G-modified', None, before, after)
 
 
+class NodeObj(object):
+    def __init__(self, i):
+        self.i = i
+
+    def __repr__(self):
+        return 'NodeObj<%d>' % self.i
+
+
 NODE_NAMES = {
+    'objects': lambda i: NodeObj(i),
     'frozensets': lambda i: frozenset([i]) if i % 2 else frozenset([i, 'x']),
     'mixed': lambda i: (0, 'a', (1, 2), None, 2.5)[i],
     'tuples-of-sets': lambda i: (frozenset([i]), 'n'),
@@ -227,6 +236,9 @@ def check_named(n, edges, scheme, acc):
     r = call(G.clone)
     if r[0] != 'ok' or back(r[1]) != (list(range(n)), sorted(eset)):
         acc.violation('clone-named', case, sorted(eset), r[1:] if r[0] != 'ok' else back(r[1]))
+    elif not all(any(v is x for x in names) for v in r[1]._next) or \
+            not all(any(d is x for x in names) for v in r[1]._next for d in r[1]._next[v]):
+        acc.violation('clone-holds-foreign-node-objects', case, 'the nodes of G', 'copies')
 
 
 def orders_for(n, tier):
